@@ -338,14 +338,28 @@ pub mod std {
         use ::core::time::Duration;
 
         /// Handle to a thread; managed threads carry their virtual id.
-        #[derive(Clone, Debug)]
+        /// Cloning and unparking report a read of the handle *where it lives*, so a use
+        /// through a reference into another operation's dead frame is visible to the
+        /// runtime wherever the access hooks sit.
+        #[derive(Debug)]
         pub struct Thread {
             real: ::std::thread::Thread,
             vid: u32,
         }
+        impl Clone for Thread {
+            #[inline(always)]
+            fn clone(&self) -> Self {
+                super::super::read(self as *const Self as usize, ::core::mem::size_of::<Self>());
+                Thread {
+                    real: self.real.clone(),
+                    vid: self.vid,
+                }
+            }
+        }
         impl Thread {
             #[inline(always)]
             pub fn unpark(&self) {
+                super::super::read(self as *const Self as usize, ::core::mem::size_of::<Self>());
                 if self.vid != u32::MAX {
                     // a managed thread is woken through the runtime whoever calls
                     if let Some(r) = super::super::raw_rt() {
